@@ -24,7 +24,7 @@ from .. import core, tplgen
 from .. import render_common as rc
 
 PROP = "C14"
-THEOREMS = ['nested_untouched', 'root_element_tagged', 'root_text_untouched', 'root_marker_untouched', 'root_placeholder_tagged', 'nested_placeholders_get_nothing', 'root_placeholder_handed_over', 'gen_id_fresh', 'leaf_component_roots_carry_reported_id']
+THEOREMS = ["component_tree_ids_distinct", "placeholders_are_distinct_queued_instances", "page_is_expansion_of_root_instance", "expanded_instance_root_element", "component_as_root_inherits_ids", 'nested_untouched', 'root_element_tagged', 'root_text_untouched', 'root_marker_untouched', 'root_placeholder_tagged', 'nested_placeholders_get_nothing', 'root_placeholder_handed_over', 'gen_id_fresh', 'leaf_component_roots_carry_reported_id']
 
 PROFILE = dict(p_side=0.25, w_elem=6, w_comp=6, w_slot=3, w_text=2, w_out=1, p_selfid=1.0, p_required=0.0, p_malformed=0.0,
                w_for=1.5, depth=3, p_is_filled=0.05)
